@@ -531,6 +531,251 @@ fn brief(m: &Linked) -> String {
     format!("Linked{{id:{}, first:{}, second:{}, list:[{}], label:{:?}}}", m.id, l(&m.first), l(&m.second), m.list.iter().map(l).collect::<Vec<_>>().join(","), m.label)
 }
 
+// ---------------------------------------------------------------------------------------
+// Part `tiny-replies` (after the seeded change `C12q`): "for every message value" includes values whose archived form is
+// empty or a few bytes long -- an acknowledgement is a unit struct, and its whole frame is the 4-byte checksum trailer.
+// Every end-to-end exchange so far carried one request / reply pair of at least 40 bytes.
+
+use crate::msgs::{Six, Small, Unit};
+
+macro_rules! ask {
+    ($name:ident) => {
+        #[repr(C)]
+        #[derive(Serialize, Deserialize, Archive, Debug, Clone, PartialEq, Eq)]
+        #[archive(check_bytes)]
+        pub struct $name {
+            pub id: u64,
+            /// 0 = answer, 1.. = fail with ErrorCode #n-1
+            pub fail_with: u8,
+        }
+    };
+}
+ask!(AskUnit);
+ask!(AskSmall);
+ask!(AskSix);
+
+pub struct Tiny {
+    /// (kind, id) of every request a handler saw; a zero-sized request carries no id and is logged with id 0
+    seen: Arc<Mutex<Vec<(u8, u64)>>>,
+}
+
+impl RpcService for Tiny {
+    fn register_handlers(r: &mut ServiceRegistry<Self>) {
+        r.add_handler::<AskUnit>();
+        r.add_handler::<AskSmall>();
+        r.add_handler::<AskSix>();
+        r.add_handler::<Unit>();
+    }
+}
+
+fn small_of(id: u64) -> Small {
+    Small { a: id as u8, flag: id % 2 == 1, b: (id >> 3) as u8 ^ 0x5A }
+}
+
+fn six_of(id: u64) -> Six {
+    Six { bytes: [id as u8, 1, 2, 3, 4, (id * 7) as u8], tail: id as u16 ^ 0xBEEF, last: 9 }
+}
+
+fn tiny_status(kind: u8, id: u64, fail_with: u8) -> Status {
+    Status { code: code(fail_with), message: format!("no-{kind}-{id}") }
+}
+
+#[datacake_rpc::async_trait]
+impl Handler<AskUnit> for Tiny {
+    type Reply = Unit;
+
+    async fn on_message(&self, msg: Request<AskUnit>) -> Result<Unit, Status> {
+        let (id, f) = (msg.id.value(), msg.fail_with);
+        self.seen.lock().push((0, id));
+        if f > 0 {
+            return Err(tiny_status(0, id, f));
+        }
+        Ok(Unit)
+    }
+}
+
+#[datacake_rpc::async_trait]
+impl Handler<AskSmall> for Tiny {
+    type Reply = Small;
+
+    async fn on_message(&self, msg: Request<AskSmall>) -> Result<Small, Status> {
+        let (id, f) = (msg.id.value(), msg.fail_with);
+        self.seen.lock().push((1, id));
+        if f > 0 {
+            return Err(tiny_status(1, id, f));
+        }
+        Ok(small_of(id))
+    }
+}
+
+#[datacake_rpc::async_trait]
+impl Handler<AskSix> for Tiny {
+    type Reply = Six;
+
+    async fn on_message(&self, msg: Request<AskSix>) -> Result<Six, Status> {
+        let (id, f) = (msg.id.value(), msg.fail_with);
+        self.seen.lock().push((2, id));
+        if f > 0 {
+            return Err(tiny_status(2, id, f));
+        }
+        Ok(six_of(id))
+    }
+}
+
+#[datacake_rpc::async_trait]
+impl Handler<Unit> for Tiny {
+    /// a zero-sized request answered with a zero-sized reply
+    type Reply = Unit;
+
+    async fn on_message(&self, _msg: Request<Unit>) -> Result<Unit, Status> {
+        self.seen.lock().push((3, 0));
+        Ok(Unit)
+    }
+}
+
+#[derive(Debug, Clone)]
+pub struct TinyCase {
+    /// (kind 0..=3, fail_with, route)
+    pub xs: Vec<(u8, u8, u8)>,
+    pub concurrent: bool,
+}
+
+pub struct TinyReplies;
+
+impl Prop for TinyReplies {
+    type Case = TinyCase;
+
+    fn id(&self) -> &'static str {
+        "C12"
+    }
+
+    fn part(&self) -> &'static str {
+        "tiny-replies"
+    }
+
+    fn width(&self) -> usize {
+        32
+    }
+
+    fn gen(&self, src: &mut Src) -> TinyCase {
+        let n = 1 + src.below(6);
+        let xs = (0..n).map(|_| (src.below(4) as u8, if src.chance(1, 5) { 1 + src.below(5) as u8 } else { 0 }, src.below(3) as u8)).collect();
+        TinyCase { xs, concurrent: src.chance(1, 3) }
+    }
+
+    fn run(&self, case: &TinyCase) -> Outcome {
+        crate::e3::sim(1, 70_000_000, BTreeMap::new(), |_net| run_tiny(case))
+    }
+
+    fn describe(&self, case: &TinyCase) -> Value {
+        json!({
+            "concurrent": case.concurrent,
+            "exchanges": case.xs.iter().map(|(k, f, r)| json!({
+                "reply_type": (["unit struct (0 bytes)", "Small (3 bytes, alignment 1)", "Six (9 bytes -> 10, alignment 2)", "unit struct to a unit request"][*k as usize]),
+                "handler_fails_with": if *f > 0 && *k < 3 { json!(format!("{:?}", code(*f))) } else { Value::Null },
+                "route": (["send", "send_owned", "context+header"][*r as usize]),
+            })).collect::<Vec<_>>(),
+        })
+    }
+
+    fn rule(&self) -> &'static str {
+        "1-6 typed exchanges (sequential or concurrent; send / send_owned / context with a header) with a service whose replies are a \
+         unit struct (archived form of 0 bytes: the frame is the checksum trailer alone), a 3-byte struct of alignment 1 and a 10-byte \
+         struct of alignment 2, one request type being a unit struct itself; one exchange in five answered with an error status; oracle: \
+         the handler ran exactly once per request and saw its id, the client received exactly the reply value the handler computed for \
+         that id, or exactly its code and message; non-trivial = a zero-sized reply was delivered"
+    }
+}
+
+async fn run_tiny(case: &TinyCase) -> Outcome {
+    let addr: SocketAddr = ([10, 6, 0, 2], 7000).into();
+    let server = Server::listen(addr).await.expect("listen");
+    let seen = Arc::new(Mutex::new(vec![]));
+    server.add_service(Tiny { seen: seen.clone() });
+    let client = RpcClient::<Tiny>::new(Channel::connect(addr));
+    // what the client saw: Ok(description of the value) or the status
+    let mut futs: Vec<std::pin::Pin<Box<dyn std::future::Future<Output = Result<String, Status>>>>> = vec![];
+    for (i, (kind, fail_with, route)) in case.xs.iter().enumerate() {
+        let (id, f, route, c) = (i as u64 + 1, *fail_with, *route, client.clone());
+        macro_rules! go {
+            ($msg:expr, $show:expr) => {{
+                let msg = $msg;
+                futs.push(Box::pin(async move {
+                    let res = match route {
+                        0 => c.send(&msg).await,
+                        1 => c.send_owned(msg.clone()).await,
+                        _ => c.create_rpc_context().set_header("x-verif", datacake_rpc::http::HeaderValue::from_static("1")).send(&msg).await,
+                    };
+                    res.map(|v| $show(v))
+                }))
+            }};
+        }
+        match kind {
+            0 => go!(AskUnit { id, fail_with: f }, |v: datacake_rpc::DataView<Unit>| format!("{:?}", v.deserialize_view().ok())),
+            1 => go!(AskSmall { id, fail_with: f }, |v: datacake_rpc::DataView<Small>| format!("{:?}", v.deserialize_view().ok())),
+            2 => go!(AskSix { id, fail_with: f }, |v: datacake_rpc::DataView<Six>| format!("{:?}", v.deserialize_view().ok())),
+            _ => go!(Unit, |v: datacake_rpc::DataView<Unit>| format!("{:?}", v.deserialize_view().ok())),
+        }
+    }
+    let results = if case.concurrent {
+        futures::future::join_all(futs).await
+    } else {
+        let mut out = vec![];
+        for f in futs {
+            out.push(f.await);
+        }
+        out
+    };
+    let mut zero = false;
+    for (i, ((kind, fail_with, _), res)) in case.xs.iter().zip(results).enumerate() {
+        let id = i as u64 + 1;
+        let fails = *fail_with > 0 && *kind < 3;
+        let want: Result<String, Status> = if fails {
+            Err(tiny_status(*kind, id, *fail_with))
+        } else {
+            Ok(match kind {
+                1 => format!("{:?}", Some(small_of(id))),
+                2 => format!("{:?}", Some(six_of(id))),
+                _ => format!("{:?}", Some(Unit)),
+            })
+        };
+        ensure!(
+            res == want,
+            "tiny-reply-not-delivered",
+            "exchange {i} (kind {kind}): the handler answered {:?}, the client observed {:?}",
+            want,
+            res
+        );
+        zero |= !fails && (*kind == 0 || *kind == 3);
+    }
+    let log = seen.lock().clone();
+    for (i, (kind, _, _)) in case.xs.iter().enumerate() {
+        if *kind < 3 {
+            let n = log.iter().filter(|e| **e == (*kind, i as u64 + 1)).count();
+            ensure!(n == 1, "handler-ran-not-once", "exchange {i} (kind {kind}): its handler ran {n} times");
+        }
+    }
+    let units = case.xs.iter().filter(|x| x.0 == 3).count();
+    ensure!(log.iter().filter(|e| e.0 == 3).count() == units, "handler-ran-not-once", "{units} unit requests were sent, the handler ran {} times", log.iter().filter(|e| e.0 == 3).count());
+    datacake_rpc::verif::unregister(addr);
+    server.shutdown();
+    let mut labels = vec![];
+    if zero {
+        labels.push("zero_sized_reply");
+    }
+    if case.xs.iter().any(|x| x.0 == 3) {
+        labels.push("zero_sized_request");
+    }
+    if case.concurrent && case.xs.len() > 1 {
+        labels.push("concurrent");
+    }
+    Ok(Pass { nontrivial: zero, labels })
+}
+
 pub fn parts() -> Vec<Box<dyn DynPart>> {
-    vec![Box::new(Gen::new(EndToEnd, 1_500, 100_000)), Box::new(Gen::new(SharedPtrs, 40_000, 2_000_000))]
+    vec![
+        Box::new(Gen::new(EndToEnd, 1_500, 100_000)),
+        Box::new(Gen::new(SharedPtrs, 40_000, 2_000_000)),
+        Box::new(Gen::new(TinyReplies, 40_000, 2_000_000)),
+    ]
 }
